@@ -18,7 +18,7 @@ _SEEN = set()
 
 
 def regenerate():
-    from harness import facts_cli  # noqa: F401  (registers its generator)
+    from harness import facts_cli, facts_jobs  # noqa: F401  (register their generators)
     errors = []
     for g in list(dict.fromkeys(GENERATORS)):
         try:
